@@ -256,8 +256,22 @@ where
     ) -> bool {
         let has_demand_violation = |activity_idx: usize| has_demand_violation(route_ctx, activity_idx, demand, true);
 
-        let has_demand_violation_on_borders = |start_idx: usize, end_idx: usize| {
-            has_demand_violation(start_idx).is_none() || has_demand_violation(end_idx).is_none()
+        let has_demand_violation_on_borders = |start_idx: usize, end_idx: usize| match demand {
+            // NOTE: a static delivery is the least restrictive at the start of the interval and anything else
+            // at its end. A demand which has both can be feasible only in between, so it is checked by parts
+            Some(demand)
+                if demand.delivery.0.is_not_empty()
+                    && (demand.pickup.0.is_not_empty()
+                        || demand.pickup.1.is_not_empty()
+                        || demand.delivery.1.is_not_empty()) =>
+            {
+                let delivery = Demand { pickup: Default::default(), delivery: (demand.delivery.0, T::default()) };
+                let rest = Demand { pickup: demand.pickup, delivery: (T::default(), demand.delivery.1) };
+
+                self::has_demand_violation(route_ctx, start_idx, Some(&delivery), true).is_none()
+                    && self::has_demand_violation(route_ctx, end_idx, Some(&rest), true).is_none()
+            }
+            _ => has_demand_violation(start_idx).is_none() || has_demand_violation(end_idx).is_none(),
         };
 
         self.route_intervals
